@@ -209,7 +209,8 @@ def _prinz_mle(C, *args, **kwargs):
     if scipy.sparse.issparse(C):
         assert False
     else:
-        return _mle_prinz_dense(C, *args, **kwargs)
+        return _mle_prinz_dense(
+            np.asarray(C, dtype=np.float64), *args, **kwargs)
 
 
 def _prinz_mle_py(C, tol=1e-10, max_iter=10**5):
@@ -254,6 +255,10 @@ def _prinz_mle_py(C, tol=1e-10, max_iter=10**5):
     for n_iter in range(max_iter):
         logl = 0
 
+        # re-derive the running row sums from X in every sweep, so that
+        # the rounding of the incremental updates cannot accumulate
+        X_rs = X.sum(axis=1)
+
         for i in range(len(C)):
             tmp = X[i,i];
             denom = C_rs[i] - C[i, i];
@@ -284,7 +289,13 @@ def _prinz_mle_py(C, tol=1e-10, max_iter=10**5):
                 if (a == 0):
                     v = X[j, i];
                 else:
-                    v = (-b + np.sqrt((b**2) - (4*a*c))) / (2*a)
+                    # positive root; for b > 0 in the form that does not
+                    # subtract two nearly equal numbers
+                    disc = np.sqrt((b**2) - (4*a*c))
+                    if b > 0:
+                        v = (-2*c) / (b + disc)
+                    else:
+                        v = (-b + disc) / (2*a)
 
 #                 /* update the row sums */
                 X_rs[i] = X_rs[i] + (v - X[i, j])
